@@ -668,7 +668,7 @@ func sequential(r *vkit.Report) {
 			record(fs, o)
 		}
 	})
-	observeCallbackRetry(r)
+	callbackRetry(r)
 	r.SetExhaustive(false)
 	r.SetExtra("enumeration", "single faults: every position of every kind for every subject and input (complete); pairs: complete for inputs up to the pair bound; triples: sampled from the seed")
 	r.Count("subjects", "caller-goroutine subjects", len(subs))
@@ -676,51 +676,4 @@ func sequential(r *vkit.Report) {
 	r.Floor("seq: scenarios with failed calls that were retried to the end", r.Table("outcomes", "failed calls retried, full output then End"), 1000)
 	r.Floor("seq: reducers that met an injected error", r.Table("outcomes", "reducer returned the injected error"), 100)
 	r.Floor("seq: faults that hit while items were held inside the pipeline", r.Table("observations", "faults that hit while items were held inside the pipeline"), 100)
-}
-
-// observeCallbackRetry records — and does NOT judge — what a retry finds after a user callback itself
-// failed because the per-call context had expired (the source does not look at the context here, so
-// the item has already been taken when the callback fails). By the statement a callback failure is
-// the fatal kind and the calls after it are not judged; the table only documents the behaviour.
-func observeCallbackRetry(r *vkit.Report) {
-	in := []int{11, 21, 31, 41}
-	honour := func(ctx context.Context) error { return ctx.Err() }
-	build := map[string]func(s stream.Stream[int]) stream.Stream[int]{
-		"While": func(s stream.Stream[int]) stream.Stream[int] {
-			return stream.While(s, func(ctx context.Context, x int) (bool, error) { return true, honour(ctx) })
-		},
-		"Map": func(s stream.Stream[int]) stream.Stream[int] {
-			return stream.Map(s, func(ctx context.Context, x int) (int, error) { return x, honour(ctx) })
-		},
-		"Filter": func(s stream.Stream[int]) stream.Stream[int] {
-			return stream.Filter(s, func(ctx context.Context, x int) (bool, error) { return true, honour(ctx) })
-		},
-	}
-	for name, b := range build {
-		for failAt := 0; failAt < len(in); failAt++ {
-			src := vkit.NewProbeStream("src", copyInts(in)) // HonourCtx off: only the callback sees the context
-			s := b(src)
-			var got []int
-			for a := 0; a < 12; a++ {
-				ctx := context.Background()
-				if a == failAt {
-					ctx = deadCtx
-				}
-				var x int
-				var err error
-				if pn := vkit.Try(func() { x, err = s.Next(ctx) }); pn != nil || err == stream.End {
-					break
-				}
-				if err == nil {
-					got = append(got, x)
-				}
-			}
-			vkit.Try(s.Close)
-			if equalInts(got, in) {
-				r.Count("not judged: retry after the callback failed on an expired context", name+": the item was kept", 1)
-			} else {
-				r.Count("not judged: retry after the callback failed on an expired context", name+": the item was lost", 1)
-			}
-		}
-	}
 }
